@@ -86,9 +86,8 @@ def build(tier):
                               st.Riem_down[a, b, cc, d], S.pre,
                               get=lambda r, a=a, b=b, cc=cc, d=d: r['st_Riemann_down4'][a, b, cc, d],
                               group='st_Riemann_down4'))
-            if tier == 'thorough':
-                obs.append(Ob('Kretschmann', rel['Kretschmann'][0, 0, 0], st.Kretschmann, S.pre,
-                              get=lambda r: r['Kretschmann'], group='Kretschmann'))
+            # Kretschmann on full jets is not settled by any rung (measured, thorough run): it is decided at its cut point
+            # (cut:Kretschmann = R^{ab}_{cd} R^{cd}_{ab} on a free Riemann-symmetric tensor) composed with the Riemann obligations
         blocks.append(dict(name='nonvacuum', setup=S, run=S.run, obs=obs, ctx=c))
 
         # ---- vacuum flag: unconditional form (shortcut drops exactly Ricci-linear terms) --
